@@ -255,6 +255,10 @@ MALFORMED = [
     'c1cc[siH]c1', 'c1cc[asH]c1', 'C=c1cccc1', 'c1ccc(=c2cccc2)c1', 'O=c1cc1', 'c1cc1', 'c1ccc1', 'c1cccccc1', 'c1ccccccc1', 'Cn1(C)cccc1',
 ]
 
+# boundary inputs of the ring eligibility tests of Thiele.thiele (neighbour counts incl. special bonds, charges, ring sizes)
+THIELE_BOUNDARY = ['CS1C=CC=C1', 'C1=CC=CN1~[Fe]', 'C1=CC=CB1~[Na]', 'C1=CC=CP1(C)~[Fe]', 'C1=CC=C[N]1(C)C', 'C1=CC=CO1~[Li]', 'C1=CC=CC=C[BH]1', 'C1=CC=CC=CN1',
+                   'C1=CC=C[N-]1', 'CC1=CC=C[S]1=O', 'C1=CC=CC=CC=CN1', 'C1=CN1', 'C1=CC=C[O+]1', 'C1=CC=CC=C[CH-]1']
+
 KEKULE_SPELLED = [
     # Kekule spellings that thiele aromatises
     'C1=CNC=C1', 'C1=COC=C1', 'C1=CSC=C1', 'C1=CC=NC=C1', 'C1=CC=C2NC=CC2=C1', 'N1C=CC2=NC=CC2=C1', 'N1C=CN2C=CC=C12', 'O=C1C=CC(=O)C=C1', 'O=C1C=CNC=C1', 'C1=C[Se]C=C1',
@@ -346,7 +350,7 @@ def load_inputs(ck):
     rng = random.Random(f'{ck.seed}:c05:inputs')
     quick = ck.tier == 'quick'
     items = [('curated', s) for s in dict.fromkeys(CURATED + KEKULE_SPELLED + FINDING_INPUTS + BUFFER_INPUTS)]
-    items += [('malformed', s) for s in dict.fromkeys(MALFORMED)]
+    items += [('malformed', s) for s in dict.fromkeys(MALFORMED + THIELE_BOUNDARY)]
     items += generated(rng, 72 if quick else 600)
     try:
         with open(os.path.join(common.REPO, 'test/heterocycles_charges.smi')) as f:
